@@ -82,7 +82,8 @@ def handleIO (f : String) (j : Json) : IO (Option Json) := do
       | none =>
         match fingerprintUrlStringSplit (punyOf j) (branch j) trie sfx url,
               fingerprintUrlString (punyOf j) (branch j) trie sfx url with
-        | .ok r, .ok str => jlist [splitJson r, out str]
+        | .ok (.inr r), .ok str => jlist [splitJson r, out str]
+        | .ok (.inl u), .ok str => jlist [out u, out str]
         | .error e, _ => exceptJson (.error e)
         | _, .error e => exceptJson (.error e))
   | _ => return none
